@@ -372,6 +372,11 @@ func cmdCheck(args []string) int {
 		assumptions = append(assumptions, "axiom: "+ax.Src)
 	}
 	for _, a := range ps.Analyses {
+		if a == "frame" {
+			for _, sc := range S.SharedConsts {
+				assumptions = append(assumptions, "package-level memory declared shared-constant (may be referenced from heap objects, assumed never written): "+sc.Global+" in "+sc.Func+": "+sc.Reason)
+			}
+		}
 		if a == "depth" {
 			for _, r := range S.StructuralRecReasons {
 				assumptions = append(assumptions, "recursion declared structural (bounded by the depth of a finite data structure, not by a guard): "+r)
